@@ -65,8 +65,25 @@ def run_c05(ctx):
             run_olh(ctx, 'shell', twin_args(ctx, ['-histories', '80', '-blocks', '14'], ['-histories', '800', '-blocks', '24']))]
 
 
+def only(result, sigs):
+    """keeps the monitor hits of an engine shared with another property that belong to this one"""
+    if 'error' in result:
+        return result
+    keep = lambda s: any(s.startswith(x) for x in sigs)
+    other = sum(n for s, n in (result.get('monitor_hit_count') or {}).items() if not keep(s))
+    result['monitor_hits'] = [h for h in (result.get('monitor_hits') or []) if keep(h['signature'])]
+    result['monitor_hit_count'] = {s: n for s, n in (result.get('monitor_hit_count') or {}).items() if keep(s)}
+    result.setdefault('counters', {})['hits_of_other_properties'] = other
+    return result
+
+
 def run_c06(ctx):
+    # the olvm engine (C17) delivers refused OLVM transactions between executed ones, in blocks with
+    # a finite gas pool too, and compares with a twin that never saw them: its atomicity monitors
+    # are C06's own predicate for the EVM object cache, which the store-level twins cannot see
     return [gassweep(ctx, 'failed-under-gas-limit-left-writes,succeeded-under-gas-limit-with-other-effect'),
+            only(run_olh(ctx, 'olvm', twin_args(ctx, ['-histories', '60', '-blocks', '12', '-maxtxs', '8'], ['-histories', '1200', '-blocks', '20', '-maxtxs', '10'])),
+                 ['refused-', 'resubmitted-bytes-changed-state', 'native-and-evm-balance-differ', 'app-closed-by-panic']),
             run_olh(ctx, 'dropfailed', twin_args(ctx, ['-histories', '150', '-blocks', '16', '-maxtxs', '8'], ['-histories', '2000', '-blocks', '30', '-maxtxs', '10'])),
             run_olh(ctx, 'shell', twin_args(ctx, ['-histories', '80', '-blocks', '14'], ['-histories', '800', '-blocks', '24']))]
 
@@ -194,13 +211,13 @@ PROPS = {
         required_theorems=['guarded_undelegate_never_crashes', 'unguarded_undelegate_crashes', 'minus_same_currency_never_crashes', 'plus_same_currency_never_crashes', 'fatal_sites_as_classified'],
         run=run_c18, replay=replay_olh('nocrash'), level='proof',
         assumptions=['proof over a PARTIAL model: the Fatal sites of the coin arithmetic and the guard idiom protecting them; all other Fatal/panic/os.Exit sites are a classified extracted table; Go runtime panics inside libraries (JSON/RLP/ABI decoding, big.Int) are searched by child-process execution only, not proved absent'],
-        model_limits='inputs run in child processes (exit status, handlePanic closure, hang, probe SEND afterwards); OLVM / ETH payload kinds are not in the generator of this engine yet'),
+        model_limits='inputs run in child processes (exit status, handlePanic closure, hang, probe SEND afterwards); the failure points a finite block gas limit puts inside the handlers are enumerated exactly by the gassweep engine (every refusable store operation of a generated transaction is in turn the first one refused), not sampled'),
     'C05': dict(
         lean_modules=['OLP.Props.C05', 'OLP.Props.C05Facts'], namespaces=['OLP.Props.C05'],
         required_theorems=['replay_deliver_noop', 'replay_check_rejected', 'executed_tx_indexed', 'index_is_stable', 'replay_noop_in_later_block', 'replay_any_encoding_noop_partial', 'reencoded_replay_executes_twice', 'canonical_guard_present'],
         run=run_c05, replay=replay_olh('replay'), level='proof',
         assumptions=SHELL_ASSUME + ['SHA-256 of the received bytes is collision free (the hash is a parameter of the theorems)', 'the Tendermint kv tx indexer is trusted; the harness feeds it after every block as the indexer service does'],
-        model_limits='OLVM transactions additionally rely on the account nonce (only `stNonce > msgNonce` is rejected, S12): covered when the fork family is added to this engine; signature malleability is excluded by the key handlers (ed25519 deterministic, secp256k1 low-S rule of Tendermint)'),
+        model_limits='the theorem for arbitrary re-encodings keeps `_partial`: it is stated under `Canonical` (byte strings the handlers cannot tell apart have the same hash), which the code establishes by two means outside the shell model — the canonical-encoding guard of both entry points (T3 fact `canonical_guard_present`) and one spelling per key and per signature in the key handlers (ED25519: Go rejects s >= L; SECP256K1: fixed length and low-s rule of Tendermint; BTCEC: compressed key only and low-s DER without trailing bytes since d4987f9 / 9dae7fc) — both exercised by the replay engine (re-encoding classes 0-10 over originals signed with the three algorithms); OLVM transactions additionally rely on the account nonce (only `stNonce > msgNonce` is rejected, S12)'),
     'C06': dict(
         lean_modules=['OLP.Props.C06', 'OLP.Props.C06Facts'], namespaces=['OLP.Props.C06'],
         required_theorems=['failed_tx_keeps_store', 'failed_tx_noop', 'remove_failed_deliverAll', 'remove_failed_same_block', 'deliverer_discipline'],
